@@ -951,7 +951,7 @@ def c20_battery(binary):
                   "else: fcntl.lockf(f,fcntl.LOCK_EX,10,100,os.SEEK_SET)\n"
                   "print('locked',flush=True)\ntime.sleep(120)")
     for op in ("remove", "link", "soft", "move"):
-        for kind in ("whole", "shared", "inside", "beyond"):
+        for kind in ("whole", "shared", "inside", "beyond", "whole-readonly", "whole-other-perms"):
             d, root = fresh("c20b.")
             env = mkenv(d)
             try:
@@ -984,8 +984,12 @@ def c20_battery(binary):
                     continue
                 victim = droppable[0]
                 before = {p: (os.lstat(p).st_ino, open(p, "rb").read()) for p in files}
-                holder = subprocess.Popen([sys.executable, "-c", holder_src, victim, kind], stdout=subprocess.PIPE)
+                holder = subprocess.Popen([sys.executable, "-c", holder_src, victim, kind.split("-")[0]], stdout=subprocess.PIPE)
                 holder.stdout.readline()
+                if kind == "whole-readonly":
+                    os.chmod(victim, 0o444)       # the permission bits of the locked file say nothing about the lock
+                elif kind == "whole-other-perms":
+                    os.chmod(victim, 0o600)
                 with open(rep, "rb") as f:
                     rr = subprocess.run([binary] + args + ["--threads", "1"] if False else [binary] + args, stdin=f, stdout=subprocess.PIPE, stderr=subprocess.PIPE, env=env, timeout=120)
                 holder.kill()
